@@ -395,7 +395,10 @@ class Agent(dbus.service.Object):
         :param ctr: The bundle container to send.
         '''
         ctr.reload()
-        self._apply_primary(ctr)
+        is_fragment = ctr.bundle.primary.bundle_flags & PrimaryBlock.Flag.IS_FRAGMENT
+        if 'receive' not in ctr.actions and not is_fragment:
+            # only bundles originated here get defaults
+            self._apply_primary(ctr)
         ctr.fix_block_num()
         ctr.bundle.fill_fields()
 
